@@ -101,7 +101,9 @@ def check_property(pid, tier="quick", seed=0):
             except Exception as e:  # noqa
                 replay_cache[fn] = {"error": repr(e)}
         rep = replay_cache[fn]
-        key = rep.get("key") or o["name"]
+        # a known finding is identified by the obligation (function + postcondition + instance) that fails, so that a
+        # different violation of the same property is still reported
+        key = o["name"]
         digest = hashlib.sha256((o["name"] + json.dumps(rep.get("input"), sort_keys=True, default=str)).encode()).hexdigest()[:10]
         os.makedirs(replay_dir, exist_ok=True)
         path = os.path.join(replay_dir, f"{safe(o['name'])}-{digest}.json")
